@@ -8,9 +8,13 @@ package inventory
 //@   param onHeader is HeaderCallback
 //@   fresh result0
 //@   property C13
-//@   modifies *, knownDir[name], knownEntry[name]
+//@   modifies *, knownDir[name], knownEntry[name], knownSize[name]
 //@   ghostset knownDir[name] := result1 == nil && result0.Typeflag == 53
 //@   ghostset knownEntry[name] := result1 == nil
+//@   ghostset knownSize[name] := ite(result1 == nil, result0.Size, 0 - 1)
+//@   property C13 also C02 C14
+//@   ensures [records-size] knownSize[name] == ite(result1 == nil, result0.Size, 0 - 1)
+//@   property C13
 //@   ensures [records-lookup] knownEntry[name] <==> result1 == nil
 //@   ensures [records-directory-lookup] knownDir[name] <==> (result1 == nil && result0.Typeflag == 53)
 //@   ensures [found-header] result1 == nil ==> result0 != nil
